@@ -68,6 +68,7 @@ def work(case):
     strip = lambda x: {k: v for k, v in x.items() if k not in ("out_bytes", "base")}
     case = dict(case, edits=edits, actions=actions)
     return {"case": case, "fails": fails, "indexed": {"edits": ix, "res": strip(rix)} if rix else None,
+            "heur": {"edits": edits, "res": strip(r1)},
             "has_story_edit": any(e.get("si", 0) != sem.body_story_index(doc) for e in edits if e.get("locatable")),
             "sample": {"edits": [(e["target"][:20], e["new"][:20], e["kind"]) for e in edits], "actions": [(a["action"], a["target_id"]) for a in actions]}}
 
